@@ -131,3 +131,44 @@ def const_node(v):
     j = ser.ser_ast(n)
     _decorate(n, j)
     return j
+
+
+def copy_types(src_def, dst_def):
+    """give the ast recorded after a pass the argument / return type descriptors of the source function
+    (the passes rewrite annotations; types are a property of the source signature)"""
+    for a, b in zip(src_def["args"]["args"], dst_def["args"]["args"]):
+        for k in ("tdesc", "param"):
+            if k in a:
+                b[k] = a[k]
+        b.pop("annotation", None)
+    if "rdesc" in src_def:
+        dst_def["rdesc"] = src_def["rdesc"]
+    dst_def.pop("returns", None)
+    _redecorate(dst_def)
+
+
+def _redecorate(j):
+    """cast / constant decorations on a JSON ast (no python ast at hand)"""
+    if isinstance(j, dict):
+        if j.get("T") == "Call" and isinstance(j.get("func"), dict) and j["func"].get("T") == "Name" and len(j.get("args", [])) == 1:
+            try:
+                d, _ = ann_desc(ast.Name(id=j["func"]["id"]))
+                if d["t"] in ("int", "fixed"):
+                    j["cast"] = d
+            except NotDescribable:
+                pass
+        if j.get("T") == "Constant":
+            p = j.get("value", {})
+            if p.get("T") == "str" and len(p.get("v", "")) == 1:
+                p["code"] = ord(p["v"])
+            if p.get("T") == "float":
+                fr = Fraction(p["v"])
+                if fr >= 0 and fr.denominator < 10 ** 6 and fr.numerator < 10 ** 6:
+                    j["value"] = {"T": "float", "num": fr.numerator, "den": fr.denominator}
+        if j.get("T") == "FunctionDef" and "annotation" in str(j.get("args", ""))[:0]:
+            pass
+        for v in j.values():
+            _redecorate(v)
+    elif isinstance(j, list):
+        for v in j:
+            _redecorate(v)
